@@ -305,7 +305,7 @@ def main():
             if not selftest.get("ok", False):
                 inconclusive.append("encoder self-test failed: %s" % selftest.get("detail"))
         for h in prop.HARNESSES:
-            if args.only and h["name"] != args.only:
+            if args.only and h["name"] not in args.only.split(","):
                 continue
             if tier == "quick" and h.get("thorough_only"):
                 continue
@@ -323,6 +323,10 @@ def main():
                 traceback.print_exc()
                 continue
             obs = E.obligations
+            skip = tuple(getattr(prop, "SKIP_ASSERT_PREFIXES", ()))
+            if skip:
+                # assertions that belong to another property's check (shared harness): decided there
+                obs = [o for o in obs if not (o.kind == "assert" and o.id.startswith(skip))]
             st = solve.discharge(E, obs, tier=tier, jobs=args.jobs, log=log, timeout=h.get("timeout_" + tier), inproc_ms=h.get("inproc_ms"),
                                  prefs=h["native_feasible"](E) if h.get("native_feasible") else None)
             if not any(o.kind == "reach" for o in obs):
